@@ -32,7 +32,7 @@ NAMES = ["set", "message", "if", "My_Cmd1", "generic_command", "CMAKE_PARSE_ARGU
 COMMENTS = [" ", "\n", "\n\n", " # c\n", "#\n", "#[\n", "#[=\n", "#[=x\n", "# #[[[ x\n", "#]]\n", "# set(A 1)\n",
             "#[[ b ]]", "#[[ #[[[ x ]]", "#[=[ ]] ]=]", "#[==[\nmulti\n]==]", "# café ✓\n", "#[[[x]]",
             "#[[[x]]\n#]]\n", "#[=[[x]=]", "#[[\n]]", "#[[]]", "# \"unterminated\n", "#(\n", "#\\q\n",
-            "# ff\x0c set(Z 1)\n", "# ls\u2028 stray (\n", "#[[ nel\x85 ]]", "# vt\x0b\"\n"]
+            "# path C:\\tools\\\n", "#\\\n", "# ff\x0c set(Z 1)\n", "# ls\u2028 stray (\n", "#[[ nel\x85 ]]", "# vt\x0b\"\n"]
 
 
 # ---------------------------------------------------------------- CMinx side
@@ -285,6 +285,11 @@ def block_files():
                   {"k": "cpp_class", "doc": 1}, {"k": "cpp_constructor", "doc": 0, "types": [], "params": [], "impl": "macro"}],
         "test": [{"k": "ct_add_test", "doc": 1}, {"k": "ct_add_section", "doc": 1, "expectfail": 1},
                  {"k": "ct_add_section", "doc": 0, "impl": "macro"}],
+        # doccomments on the declaration AND on the definition that implements it (only acceptance is judged here)
+        "test_impldoc": [{"k": "ct_add_test", "doc": 1, "impldoc": 1}, {"k": "ct_add_section", "doc": 0, "impldoc": 1},
+                         {"k": "close"}, {"k": "close"}, {"k": "cmake_parse_arguments"}, {"k": "function", "doc": 1, "params": []}],
+        "class_impldoc": [{"k": "cpp_class", "doc": 1}, {"k": "cpp_member", "doc": 1, "impldoc": 1, "types": ["int"], "params": ["a"]},
+                          {"k": "close"}, {"k": "cpp_constructor", "doc": 0, "impldoc": 1, "types": [], "params": [], "impl": "macro"}],
     }
     out = []
     for name, evs in structs.items():
